@@ -1,5 +1,5 @@
 """C11 — MPS/MPO operations: frame condition and symbol tables."""
-from ..rules import pure, tables
+from ..rules import canon, pure, tables
 
 META = {
     "title": "MPS/MPO operations are faithful to their dense counterparts",
@@ -25,5 +25,7 @@ META = {
 def check(ctx):
     pure.check(ctx, ["emu_mps.mps.MPS", "emu_mps.mpo.MPO"], ["emu_mps.algebra", "emu_mps.utils"])
     tables.mps_tables(ctx)
+    tables.operator_terms(ctx, ("MPO",))
+    canon.scaling(ctx)
     ctx.floor("PURE", 30)
     ctx.floor("TABLES-mpo", 17)
